@@ -559,6 +559,20 @@ func c08EmptyCollWithDyn(v cty.Value) bool {
 	return found
 }
 
+func c08HasEmptyColl(v cty.Value) bool {
+	found := false
+	try(func() {
+		cty.Walk(v, func(_ cty.Path, x cty.Value) (bool, error) {
+			x, _ = x.Unmark()
+			if x.Type().IsCollectionType() && x.IsKnown() && !x.IsNull() && x.LengthInt() == 0 {
+				found = true
+			}
+			return true, nil
+		})
+	})
+	return found
+}
+
 // c08MarkedNullCarries: some null value inside v carries mark m.
 func c08MarkedNullCarries(v cty.Value, m interface{}) bool {
 	found := false
@@ -578,7 +592,7 @@ func c08MarkedNullCarries(v cty.Value, m interface{}) bool {
 func c08HasObject(t cty.Type) bool { return strings.Contains(encTy(t), "(O") }
 
 // c08NullMapToOptional: the shape behind the dynamicReplace findings — a null or
-// unknown value of map type somewhere in v, and an object type with an optional
+// unknown value whose type holds a map type somewhere in v, and an object type with an optional
 // attribute somewhere in t (for a null / unknown map the type of the result is
 // computed by dynamicReplace, which assumes that every optional attribute could
 // be converted from the map's element type).
@@ -587,7 +601,7 @@ func c08NullMapToOptional(v cty.Value, t cty.Type) bool {
 	try(func() {
 		cty.Walk(v, func(_ cty.Path, x cty.Value) (bool, error) {
 			x, _ = x.Unmark()
-			if x.Type().IsMapType() && (!x.IsKnown() || x.IsNull()) {
+			if (!x.IsKnown() || x.IsNull()) && strings.Contains(encTy(x.Type()), "(M ") {
 				found = true
 			}
 			return true, nil
@@ -721,6 +735,10 @@ func (c *c08Run) pair(v cty.Value, t cty.Type, deep bool) {
 		sig := "second-fails:" + c08Kind(r.Type()) + ">" + c08Kind(t)
 		if len(r.Type().TestConformance(t)) > 0 {
 			sig = "first-result-nonconforming"
+		} else if c08HasEmptyColl(r) && t.HasDynamicTypes() {
+			// an empty collection inside r takes the target's element type with its nested
+			// placeholder, which then does not match its non-empty neighbours
+			sig = "empty-collection-keeps-nested-placeholder"
 		}
 		c.fail("idempotent", sig, "converting the result again fails", v, t, c08Outcome(out)+" then "+c08Outcome(again))
 	case !c08Same(again.v, r):
@@ -731,6 +749,13 @@ func (c *c08Run) pair(v cty.Value, t cty.Type, deep bool) {
 		} else if c08HasOpt(r.Type()) {
 			// the first result carried optional annotations (reported as result_no_optional)
 			sig = "first-result-has-optional"
+		} else if _, rm := r.UnmarkDeep(); len(rm) > 0 {
+			_, am := again.v.UnmarkDeep()
+			for m := range rm {
+				if _, ok := am[m]; !ok && c08MarkedNullCarries(r, m) {
+					sig = "null-element-rebuilt-without-marks"
+				}
+			}
 		}
 		c.fail("idempotent", sig, "converting the result again changes it", v, t, c08Outcome(out)+" then "+c08Outcome(again))
 	}
